@@ -645,6 +645,55 @@ func runC09(c *Ctx) {
 				}
 			})
 			if !moved {
+				// the memmove and the cursor updates live in one helper (cutOut(index, n)): judged inside it, with the
+				// amount as the helper names it
+				for _, hc := range allCalls(fn) {
+					h := hc.Call.StaticCallee()
+					if !isHelperOf(fn, h) {
+						continue
+					}
+					var raw ssa.Value
+					var hsites []ssa.Instruction
+					for _, f := range spec.moved {
+						for _, a := range storesTo(h, f) {
+							if bo, ok := stripConv(a.Val).(*ssa.BinOp); ok && bo.Op == token.SUB && loadOfField(bo.X, f) {
+								raw = stripConv(bo.Y)
+								hsites = append(hsites, a.Instr)
+							}
+						}
+					}
+					if raw == nil {
+						continue
+					}
+					eachInstr(h, func(in ssa.Instruction) {
+						call, ok := in.(*ssa.Call)
+						if !ok {
+							return
+						}
+						if b, ok := call.Call.Value.(*ssa.Builtin); !ok || b.Name() != "copy" {
+							return
+						}
+						src, ok := stripConv(call.Call.Args[1]).(*ssa.Slice)
+						dst, okD := stripConv(call.Call.Args[0]).(*ssa.Slice)
+						if !ok || !okD || !loadOfField(src.X, dataF) || !loadOfField(src.High, wi) || !loadOfField(dst.X, dataF) || dst.Low == nil || src.Low == nil {
+							return
+						}
+						dom := len(hsites) > 0
+						for _, site := range hsites {
+							if !dominatesInstr(call, site) {
+								dom = false
+							}
+						}
+						want := strings.Fields(signedLeaves(dst.Low))
+						want = append(want, "+"+exprString(raw, nil, 0))
+						sort.Strings(want)
+						if dom && strings.Join(want, " ") == signedLeaves(src.Low) {
+							moved = true
+						}
+					})
+				}
+			}
+			if !moved {
 				good = false
 			}
 			var names []string
